@@ -6,6 +6,7 @@ package sourcebundle
 // comments only; it is compiled only with the "verif" build tag.
 
 //@ func OpenDir -> (b, err)
+//@   replay bundleLookup:
 //@   sweep
 //@   invariant loop1 C18.open.inv1: ret != nil && ret.rootDir == Abs(baseDir) && dirSafeAt(ret, skolem("K", "sourceaddrs.RemotePackage"))
 //@   ensures C18.open.dirs-safe: err == nil ==> b != nil && rootOK(b) && dirSafeAt(b, skolem("K", "sourceaddrs.RemotePackage"))
@@ -16,6 +17,7 @@ package sourcebundle
 //@ macro dirSafeAt(B, K): B.remotePackageDirs != nil && (mapHas(B.remotePackageDirs, K) ==> safeSeg(B.remotePackageDirs[K]))
 
 //@ func (*Bundle).LocalPathForRemoteSource -> (r, err)
+//@   replay bundleLookup:
 //@   opt lemmas=bundle
 //@   pure
 //@   sweep
@@ -26,6 +28,7 @@ package sourcebundle
 //@   ensures C18,C08.remote.found: (err == nil) == mapHas(b.remotePackageDirs, addr.pkg)
 
 //@ func (*Bundle).LocalPathForRegistrySource -> (r, err)
+//@   replay bundleLookup:
 //@   opt lemmas=bundle
 //@   pure
 //@   sweep
@@ -39,6 +42,7 @@ package sourcebundle
 //@                    ite(Join(b.registryPackageSources[addr.pkg][version].subPath, addr.subPath) == ".", "", Join(b.registryPackageSources[addr.pkg][version].subPath, addr.subPath)))
 
 //@ func (*Bundle).SourceForLocalPath -> (r, err)
+//@   replay bundleLookup:
 //@   opt lemmas=bundle
 //@   sweep
 //@   requires pre.b: b != nil
